@@ -3,6 +3,10 @@ mod rng;
 mod model;
 mod report;
 mod c16;
+mod sim;
+mod hist;
+mod c01;
+mod c05;
 
 use std::time::Instant;
 
@@ -32,6 +36,8 @@ fn main() {
     let _ = &replay;
     let rep = match prop.as_str() {
         "C16" => c16::run(&tier, seed, workers),
+        "C05" => { let mut r = c05::run(&tier, seed, workers); r.merge(c01::run("C05", &tier, seed, workers)); r }
+        "C01" | "C02" | "C04" => c01::run(&prop, &tier, seed, workers),
         _ => { eprintln!("unknown property {}", prop); std::process::exit(2); }
     };
     let mut j = rep.to_json();
